@@ -60,11 +60,11 @@ def shape_guards(ctx, rep, rule: str) -> None:
                         d = _norm(call.func)
                         if d in ("torch.numel", "numel") and call.args:
                             return stub._numel
-                        if d.endswith(".numel"):
+                        if d.replace(":", ".").endswith(".numel"):
                             return stub._numel
-                        if d.endswith(".dim") or d.endswith(".ndimension"):
+                        if d.replace(":", ".").endswith(".dim") or d.replace(":", ".").endswith(".ndimension"):
                             return stub.ndim
-                        if d.endswith(".size") and not call.args:
+                        if d.replace(":", ".").endswith(".size") and not call.args:
                             return stub.shape
                         return MISSING
 
